@@ -105,7 +105,7 @@ class Profile:
         else:
             self.file = "_filter.py"
             self.namespace = "Verif.FilterGen"
-            self.imports = ["Verif.FilterRt"]
+            self.imports = ["Verif.FilterRt", "Verif.FilterRtStr"]
             self.opens = "Verif Verif.FilterRt"
             self.err = "GErr"
             self.note = "design_notes/py2lean_filter.md"
@@ -2509,8 +2509,465 @@ class Generator:
                 w(f"/-- `{pyname}` is outside the translated subset -/")
                 w(f'def {lname}_untranslated : String := "{reason}"')
             w("")
+        if getattr(self, "printer", None) is not None:
+            for b in self.printer.blocks:
+                w(b)
+                w("")
         w(f"end {prof.namespace}")
         return "\n".join(out) + "\n"
+
+
+# ---------------------------------------------------------------------------------------------
+# the PRINTER half of _filter.py (profile `filter`): `__str__` of the filter dataclasses and
+# `_serialize_filter_value`.  Pure functions (nothing raises); `str` = its UTF-8 octets.
+# See the last section of design_notes/py2lean_filter.md.
+
+PRINTER_SERIALIZER = "_serialize_filter_value"
+# compiled patterns that are ONE character class: name -> the octets the class matches (Generated/Facts)
+OCTET_CLASSES = {"_STRING_ESCAPE_PATTERN": "Facts.escapedBytes"}
+# model constructors without a class in _filter.py: the value the dispatcher gives them
+PRINTER_EXTRA_CTORS = [("Filter.custom _", "[]", "no class of _filter.py (the harness' registered custom filter): no text form")]
+
+LN = "List Nat"
+LLN = "List (List Nat)"
+
+
+def octets(b: bytes) -> str:
+    return "[" + ", ".join(str(x) for x in b) + "]"
+
+
+class PrinterTranslator:
+    def __init__(self, tree: ast.Module, mod: Module):
+        self.tree = tree
+        self.mod = mod
+        self.prof = mod.profile
+        self.failed: dict[str, str] = {}
+        self.blocks: list[str] = []          # rendered definitions, in order
+        self.count = 0
+        self.str_methods: dict[str, ast.FunctionDef] = {}
+        self.consts: dict[str, ast.expr] = {}
+        for node in tree.body:
+            if isinstance(node, ast.ClassDef) and node.name in self.prof.ctors:
+                for st in node.body:
+                    if isinstance(st, ast.FunctionDef) and st.name == "__str__":
+                        self.str_methods[node.name] = st
+            elif isinstance(node, ast.Assign) and len(node.targets) == 1 and isinstance(node.targets[0], ast.Name):
+                self.consts[node.targets[0].id] = node.value
+
+    # ---- types: 'ustr' | 'bytes' | 'bool' | 'filter' | ('opt', T) | ('list', T)
+
+    def field_type(self, ann):
+        ty = self.mod.ann_type(ann)
+        def fix(t):
+            if t == "str":
+                return "ustr"
+            if isinstance(t, tuple) and t[0] in ("opt", "list"):
+                return (t[0], fix(t[1]))
+            return t
+        ty = fix(ty)
+        ok = ("ustr", "bytes", "bool", "filter", ("opt", "ustr"), ("opt", "bytes"),
+              ("list", "bytes"), ("list", "ustr"), ("list", "filter"))
+        if ty not in ok:
+            raise Unsupported(ann, f"field type outside the printer subset: {ast.unparse(ann)}")
+        return ty
+
+    # ---- `_serialize_filter_value`
+
+    def body_of(self, fn):
+        body = list(fn.body)
+        if body and isinstance(body[0], ast.Expr) and isinstance(body[0].value, ast.Constant) \
+                and isinstance(body[0].value.value, str):
+            body = body[1:]
+        return body
+
+    def is_utf8_arg(self, call) -> bool:
+        return (len(call.args) == 1 and not call.keywords and isinstance(call.args[0], ast.Constant)
+                and str(call.args[0].value).lower().replace("_", "-") in ("utf-8", "utf8"))
+
+    def single_class(self, pname, at) -> str:
+        """the pattern `pname` must be `re.compile(<literal>.encode("utf-8"))` / a bytes literal whose source is one
+        bracket expression; the octets it matches are a table of Generated/Facts"""
+        import re as _re
+        if pname not in OCTET_CLASSES or pname not in self.consts:
+            raise Unsupported(at, f"`{pname}.sub`: not a known one-class pattern")
+        v = self.consts[pname]
+        src = None
+        if isinstance(v, ast.Call) and ast.unparse(v.func) == "re.compile" and len(v.args) == 1 and not v.keywords:
+            a = v.args[0]
+            if isinstance(a, ast.Constant) and isinstance(a.value, bytes):
+                src = a.value.decode("latin-1")
+            elif (isinstance(a, ast.Call) and isinstance(a.func, ast.Attribute) and a.func.attr == "encode"
+                    and isinstance(a.func.value, ast.Constant) and isinstance(a.func.value.value, str)
+                    and self.is_utf8_arg(a)):
+                src = a.func.value.value
+        if src is None or not _re.fullmatch(r"\[(?:\\.|[^\]\\])+\]", src, _re.S):
+            raise Unsupported(v, f"`{pname}` is not re.compile of ONE character class")
+        return OCTET_CLASSES[pname]
+
+    def translate_serializer(self):
+        pyname = PRINTER_SERIALIZER
+        fn = self.mod.funcs.get(pyname)
+        if fn is None:
+            raise Unsupported(self.tree, f"{pyname} not found in the source")
+        lname = lean_name(pyname)
+        params = [a.arg for a in fn.args.args]
+        body = self.body_of(fn)
+        if len(params) != 1 or self.mod.ann_type(fn.args.args[0].annotation) != "bytes" or len(body) != 2 \
+                or not isinstance(body[0], ast.FunctionDef) or not isinstance(body[1], ast.Return):
+            raise Unsupported(fn, "shape: one bytes parameter, a nested callback, one return")
+        cb, ret = body
+        # return PATTERN.sub(cb, value).decode("utf-8")
+        r = ret.value
+        if not (isinstance(r, ast.Call) and isinstance(r.func, ast.Attribute) and r.func.attr == "decode"
+                and self.is_utf8_arg(r)):
+            raise Unsupported(ret, "expected `<bytes>.decode(\"utf-8\")`")
+        s = r.func.value
+        if not (isinstance(s, ast.Call) and isinstance(s.func, ast.Attribute) and s.func.attr == "sub"
+                and isinstance(s.func.value, ast.Name) and len(s.args) == 2 and not s.keywords
+                and isinstance(s.args[0], ast.Name) and s.args[0].id == cb.name
+                and isinstance(s.args[1], ast.Name) and s.args[1].id == params[0]):
+            raise Unsupported(ret, "expected `PATTERN.sub(<callback>, <parameter>)`")
+        cls = self.single_class(s.func.value.id, s)
+        # the callback: return f"...{ord(m.group(0)):02x}...".encode("utf-8")
+        cbody = self.body_of(cb)
+        if len(cb.args.args) != 1 or len(cbody) != 1 or not isinstance(cbody[0], ast.Return):
+            raise Unsupported(cb, "callback shape: one parameter, one return")
+        m = cb.args.args[0].arg
+        e = cbody[0].value
+        if not (isinstance(e, ast.Call) and isinstance(e.func, ast.Attribute) and e.func.attr == "encode"
+                and self.is_utf8_arg(e) and isinstance(e.func.value, ast.JoinedStr)):
+            raise Unsupported(cb, "callback: expected `f\"...\".encode(\"utf-8\")`")
+        parts = []
+        for p in e.func.value.values:
+            if isinstance(p, ast.Constant) and isinstance(p.value, str):
+                parts.append(octets(p.value.encode("utf-8")))
+                continue
+            v = p.value
+            is_ord = (isinstance(v, ast.Call) and isinstance(v.func, ast.Name) and v.func.id == "ord"
+                      and len(v.args) == 1 and isinstance(v.args[0], ast.Call)
+                      and isinstance(v.args[0].func, ast.Attribute) and v.args[0].func.attr == "group"
+                      and isinstance(v.args[0].func.value, ast.Name) and v.args[0].func.value.id == m
+                      and len(v.args[0].args) == 1 and isinstance(v.args[0].args[0], ast.Constant)
+                      and v.args[0].args[0].value == 0)
+            spec = p.format_spec
+            spec_s = (spec.values[0].value if spec is not None and len(spec.values) == 1
+                      and isinstance(spec.values[0], ast.Constant) else None)
+            if not (is_ord and p.conversion == -1 and spec_s == "02x"):
+                raise Unsupported(p, "callback: only `{ord(m.group(0)):02x}` is in the subset")
+            parts.append("fmtHex02 m_")
+        cb_l = f"{lname}_{cb.name}"
+        self.blocks.append(
+            f"/-- the `re.sub` callback `{cb.name}` of `{pyname}` ({self.prof.file} line {cb.lineno}) as a function of\n"
+            f"    the matched octet `m_ = ord({m}.group(0))` (the pattern is one character class: a match is one octet) -/\n"
+            f"def {cb_l} (m_ : Nat) : {LN} :=\n  " + " ++ ".join(parts))
+        self.blocks.append(
+            f"/-- `{pyname}` ({self.prof.file} line {fn.lineno}): `{s.func.value.id}.sub({cb.name}, {params[0]}).decode(\"utf-8\")` -/\n"
+            f"def {lname} ({lean_name(params[0])} : {LN}) : {LN} :=\n"
+            f"  decodeUtf8 (reSubOctetClass {cls} {cb_l} {lean_name(params[0])})")
+        self.count += 2
+        self.serializer = lname
+
+    # ---- expressions
+
+    def ltype(self, ty):
+        return lean_type({"ustr": "ustr"}.get(ty, ty)) if ty != "filter" else "Filter"
+
+    def expr(self, node, env, st):
+        """-> (term, type).  `st` = per-method state (dict): 'rec' set when str() of a sub-filter is used"""
+        if isinstance(node, ast.Constant):
+            if isinstance(node.value, str):
+                return octets(node.value.encode("utf-8")), "ustr"
+            if isinstance(node.value, bytes):
+                return octets(node.value), "bytes"
+            raise Unsupported(node, "constant outside the printer subset")
+        if isinstance(node, ast.Name):
+            if node.id in env:
+                return env[node.id]
+            raise Unsupported(node, f"unknown name {node.id}")
+        if isinstance(node, ast.Attribute) and isinstance(node.value, ast.Name) and node.value.id == st["self"]:
+            key = "self." + node.attr
+            if key in env:
+                return env[key]
+            raise Unsupported(node, f"unknown field {node.attr}")
+        if isinstance(node, ast.JoinedStr):
+            parts = []
+            for p in node.values:
+                if isinstance(p, ast.Constant):
+                    parts.append(octets(p.value.encode("utf-8")))
+                    continue
+                if p.format_spec is not None or p.conversion not in (-1, 115):
+                    raise Unsupported(p, "f-string field with a format spec / conversion other than !s")
+                t_, ty = self.expr(p.value, env, st)
+                if ty == "filter":
+                    st["rec"] = True
+                    parts.append(f"Filter_str {atom(t_)}")
+                elif ty == "ustr":
+                    parts.append(t_ if is_atom(t_) or " ++ " not in t_ else paren(t_))
+                else:
+                    raise Unsupported(p, f"f-string field of type {ty} (str() of it is not its content)")
+            return " ++ ".join(parts) if parts else "[]", "ustr"
+        if isinstance(node, ast.BoolOp) and isinstance(node.op, ast.Or) and len(node.values) == 2:
+            a, aty = self.expr(node.values[0], env, st)
+            d, dty = self.expr(node.values[1], env, st)
+            if isinstance(aty, tuple) and aty[0] == "opt" and aty[1] == dty and dty in ("ustr", "bytes"):
+                return f"pyOr {atom(a)} {atom(d)}", dty
+            raise Unsupported(node, "`x or d` only for an Optional[bytes|str] x and a bytes|str d")
+        if isinstance(node, ast.List):
+            if len(node.elts) == 0:
+                raise Unsupported(node, "empty list literal without a type")
+            terms, tys = zip(*(self.expr(e, env, st) for e in node.elts))
+            if len(set(tys)) != 1 or tys[0] not in ("ustr", "bytes"):
+                raise Unsupported(node, "list literal of mixed / unsupported element type")
+            return "[" + ", ".join(terms) + "]", ("list", tys[0])
+        if isinstance(node, ast.Call):
+            f = node.func
+            if isinstance(f, ast.Name) and f.id == PRINTER_SERIALIZER and len(node.args) == 1 and not node.keywords:
+                a, aty = self.expr(node.args[0], env, st)
+                if aty != "bytes":
+                    raise Unsupported(node, f"{PRINTER_SERIALIZER} of a non-bytes value")
+                if not getattr(self, "serializer", None):
+                    raise Unsupported(node, f"calls {PRINTER_SERIALIZER}, which is untranslated")
+                return f"{self.serializer} {atom(a)}", "ustr"
+            if isinstance(f, ast.Name) and f.id == "str" and len(node.args) == 1 and not node.keywords:
+                a, aty = self.expr(node.args[0], env, st)
+                if aty == "filter":
+                    st["rec"] = True
+                    return f"Filter_str {atom(a)}", "ustr"
+                if aty == "ustr":
+                    return a, "ustr"
+                raise Unsupported(node, f"str() of a value of type {aty}")
+            if (isinstance(f, ast.Attribute) and f.attr == "join" and isinstance(f.value, ast.Constant)
+                    and isinstance(f.value.value, str) and len(node.args) == 1 and not node.keywords):
+                sep = octets(f.value.value.encode("utf-8"))
+                arg = node.args[0]
+                if isinstance(arg, ast.GeneratorExp):
+                    # sep.join(str(f) for f in <list of filters>)
+                    if len(arg.generators) != 1 or arg.generators[0].ifs or arg.generators[0].is_async \
+                            or not isinstance(arg.generators[0].target, ast.Name):
+                        raise Unsupported(arg, "comprehension outside the subset")
+                    g = arg.generators[0]
+                    it, ity = self.expr(g.iter, env, st)
+                    v = g.target.id
+                    e = arg.elt
+                    if ity == ("list", "filter") and isinstance(e, ast.Call) and isinstance(e.func, ast.Name) \
+                            and e.func.id == "str" and len(e.args) == 1 and isinstance(e.args[0], ast.Name) \
+                            and e.args[0].id == v and not e.keywords:
+                        st["rec"] = True
+                        return f"strJoin {sep} (Filter_str_map {atom(it)})", "ustr"
+                    raise Unsupported(arg, "only `str(f) for f in <list of filters>`")
+                a, aty = self.expr(arg, env, st)
+                if aty == ("list", "ustr"):
+                    return f"strJoin {sep} {atom(a)}", "ustr"
+                raise Unsupported(node, f"join of a value of type {aty}")
+        raise Unsupported(node, f"expression outside the printer subset: {ast.unparse(node)[:60]}")
+
+    # ---- statements: straight-line `let`s; returns the lines and the final term
+
+    def assigned(self, stmts):
+        out = []
+        for s in stmts:
+            if isinstance(s, ast.Assign) and len(s.targets) == 1 and isinstance(s.targets[0], ast.Name):
+                n = s.targets[0].id
+            elif (isinstance(s, ast.Expr) and isinstance(s.value, ast.Call) and isinstance(s.value.func, ast.Attribute)
+                    and s.value.func.attr == "append" and isinstance(s.value.func.value, ast.Name)):
+                n = s.value.func.value.id
+            elif isinstance(s, ast.If):
+                for n2 in self.assigned(s.body) + self.assigned(s.orelse):
+                    if n2 not in out:
+                        out.append(n2)
+                continue
+            else:
+                raise Unsupported(s, "statement outside the printer subset")
+            if n not in out:
+                out.append(n)
+        return out
+
+    def tup(self, names, env):
+        return env[names[0]][0] if len(names) == 1 else "(" + ", ".join(env[n][0] for n in names) + ")"
+
+    def stmts(self, body, env, st, ind, cls_name):
+        """translate straight-line statements; returns lines (indented by `ind`) and updates env"""
+        out = []
+        pad = " " * ind
+        for s in body:
+            if isinstance(s, ast.Assign) and len(s.targets) == 1 and isinstance(s.targets[0], ast.Name):
+                t_, ty = self.expr(s.value, env, st)
+                n = s.targets[0].id
+                if n in env and env[n][1] != ty:
+                    raise Unsupported(s, f"{n} changes type")
+                env[n] = (lean_name(n), ty)
+                out.append(f"{pad}let {lean_name(n)} : {lean_type(ty)} := {t_}")
+            elif (isinstance(s, ast.Expr) and isinstance(s.value, ast.Call) and isinstance(s.value.func, ast.Attribute)
+                    and s.value.func.attr == "append" and isinstance(s.value.func.value, ast.Name)
+                    and len(s.value.args) == 1 and not s.value.keywords):
+                n = s.value.func.value.id
+                if n not in env or not (isinstance(env[n][1], tuple) and env[n][1][0] == "list"):
+                    raise Unsupported(s, f"append on a non-list {n}")
+                t_, ty = self.expr(s.value.args[0], env, st)
+                if ty != env[n][1][1]:
+                    raise Unsupported(s, f"append of a {ty} to a list of {env[n][1][1]}")
+                out.append(f"{pad}let {env[n][0]} : {lean_type(env[n][1])} := {env[n][0]} ++ [{t_}]")
+            elif isinstance(s, ast.If) and not s.orelse:
+                carried = self.assigned(s.body)
+                for n in carried:
+                    if n not in env:
+                        raise Unsupported(s, f"{n} is first assigned under an `if`")
+                before = self.tup(carried, env)
+                tty = " × ".join(lean_type_atom(env[n][1]) for n in carried)
+                test = s.test
+                env2 = dict(env)
+                narrowed = None
+                if (isinstance(test, ast.Compare) and len(test.ops) == 1 and isinstance(test.ops[0], ast.IsNot)
+                        and isinstance(test.comparators[0], ast.Constant) and test.comparators[0].value is None):
+                    t_, ty = self.expr(test.left, env, st)
+                    if not (isinstance(ty, tuple) and ty[0] == "opt" and is_atom(t_)):
+                        raise Unsupported(test, "`is not None` on a non-Optional")
+                    key = "self." + test.left.attr if isinstance(test.left, ast.Attribute) else test.left.id
+                    env2[key] = (t_, ty[1])
+                    narrowed = t_
+                else:
+                    t_, ty = self.expr(test, env, st)
+                    if ty != "bool":
+                        raise Unsupported(test, f"condition of type {ty}")
+                inner = self.stmts(s.body, env2, st, ind + 6, cls_name)
+                after = self.tup(carried, env2)
+                inner[0] = " " * (ind + 5) + "(" + inner[0].lstrip()
+                inner.append(" " * (ind + 6) + after + ")")
+                if narrowed:
+                    out.append(f"{pad}let {before} : {tty} := (match {narrowed} with")
+                    out.append(f"{pad}  | none => {before}")
+                    out.append(f"{pad}  | some {narrowed} =>")
+                    out += inner
+                    out[-1] += ")"
+                else:
+                    out.append(f"{pad}let {before} : {tty} := (if {t_} = true then")
+                    out += inner
+                    out.append(f"{pad}  else")
+                    out.append(f"{pad}    {before})")
+            elif isinstance(s, ast.For) and not s.orelse and isinstance(s.target, ast.Name):
+                it, ity = self.expr(s.iter, env, st)
+                if not (isinstance(ity, tuple) and ity[0] == "list" and ity[1] in ("bytes", "ustr")):
+                    raise Unsupported(s, f"`for` over a value of type {ity}")
+                carried = self.assigned(s.body)
+                for n in carried:
+                    if n not in env:
+                        raise Unsupported(s, f"{n} is first assigned in a loop")
+                st["loops"] = st.get("loops", 0) + 1
+                lname = f"{cls_name}_str_for{st['loops']}"
+                used = loaded_names(s.body)
+                extra = [k for k in env if k not in carried and k != s.target.id
+                         and ((k.startswith("self.") and any(isinstance(n, ast.Attribute) and isinstance(n.value, ast.Name)
+                                                                 and n.value.id == st["self"] and "self." + n.attr == k
+                                                                 for b in s.body for n in ast.walk(b)))
+                              or (not k.startswith("self.") and k in used))]
+                env2 = dict(env)
+                env2[s.target.id] = (lean_name(s.target.id), ity[1])
+                st2 = dict(st)
+                inner = self.stmts(s.body, env2, st2, 4, cls_name)
+                if st2.get("rec") and not st.get("rec"):
+                    raise Unsupported(s, "str() of a sub-filter inside a loop")
+                cty = " → ".join(lean_type_atom(env[n][1]) for n in carried)
+                rty = " × ".join(lean_type_atom(env[n][1]) for n in carried)
+                ps = "".join(f" ({env[k][0]} : {lean_type(env[k][1])})" for k in extra)
+                pa = "".join(f" {env[k][0]}" for k in extra)
+                cn = ", ".join(env[n][0] for n in carried)
+                blk = [f"/-- the `for` loop at {self.prof.file} line {s.lineno} of `{cls_name}.__str__`; carried: {', '.join(carried)} -/",
+                       f"def {lname}{ps} : {lean_type(ity)} → {cty} → {rty}",
+                       f"  | [], {cn} => {self.tup(carried, env)}",
+                       f"  | b_ :: rest_, {cn} =>",
+                       f"    let {lean_name(s.target.id)} : {lean_type(ity[1])} := b_"]
+                blk += inner
+                blk.append(f"    {lname}{pa} rest_ " + " ".join(env2[n][0] for n in carried))
+                st["pre"].append("\n".join(blk))
+                out.append(f"{pad}let {self.tup(carried, env)} : {rty} := {lname}{pa} {atom(it)} "
+                           + " ".join(env[n][0] for n in carried))
+            else:
+                raise Unsupported(s, f"statement outside the printer subset: {ast.unparse(s)[:50]}")
+        return out
+
+    def method(self, cname):
+        """-> (pre-definitions, params [(lean, type)], body lines at indent 4, final term, recursive?)"""
+        fn = self.str_methods[cname]
+        if len(fn.args.args) != 1 or fn.args.kwonlyargs or fn.args.vararg or fn.args.kwarg or fn.decorator_list:
+            raise Unsupported(fn, "__str__ signature")
+        st = {"self": fn.args.args[0].arg, "pre": []}
+        env = {}
+        params = []
+        for f, ann in self.mod.dcs[cname]:
+            ty = self.field_type(ann)
+            env["self." + f] = (lean_name(f), ty)
+            params.append((lean_name(f), ty))
+        body = self.body_of(fn)
+        if not body or not isinstance(body[-1], ast.Return) or body[-1].value is None \
+                or any(isinstance(n, ast.Return) for s in body[:-1] for n in ast.walk(s)):
+            raise Unsupported(fn, "__str__ must end in its only `return`")
+        lines = self.stmts(body[:-1], env, st, 4, cname)
+        t_, ty = self.expr(body[-1].value, env, st)
+        if ty != "ustr":
+            raise Unsupported(body[-1], f"__str__ returns a {ty}")
+        if st.get("rec") and st["pre"]:
+            raise Unsupported(fn, "a loop in a __str__ that prints sub-filters")
+        return st["pre"], params, lines, t_, bool(st.get("rec")), fn.lineno
+
+    def run(self):
+        try:
+            self.translate_serializer()
+        except Unsupported as e:
+            self.failed[PRINTER_SERIALIZER] = str(e)
+            self.blocks.append(self.stub(lean_name(PRINTER_SERIALIZER), PRINTER_SERIALIZER, str(e)))
+        arms = []
+        ok = True
+        order = [n.name for n in self.tree.body if isinstance(n, ast.ClassDef) and n.name in self.prof.ctors]
+        for cname in order:
+            q = f"{cname}.__str__"
+            try:
+                if cname not in self.str_methods:
+                    raise Unsupported(self.tree, "the class defines no __str__")
+                pre, params, lines, final, rec, lineno = self.method(cname)
+            except Unsupported as e:
+                self.failed[q] = str(e)
+                self.blocks.append(self.stub(lean_name(q), q, str(e)))
+                ok = False
+                continue
+            self.count += 1 + len(pre)
+            pat = self.prof.ctors[cname] + "".join(f" {p}" for p, _ in params)
+            if rec:
+                arms.append([f"  | {pat} =>   -- `{q}` ({self.prof.file} line {lineno})"] + lines + [f"    {final}"])
+            else:
+                self.blocks += pre
+                ps = "".join(f" ({p} : {lean_type(ty)})" for p, ty in params)
+                self.blocks.append("\n".join(
+                    [f"/-- `{q}` ({self.prof.file} line {lineno}), as a function of the fields -/",
+                     f"def {lean_name(q)}{ps} : {LN} :="] + [ln[2:] for ln in lines] + [f"  {final}"]))
+                arms.append([f"  | {pat} => {lean_name(q)}" + "".join(f" {p}" for p, _ in params)])
+        if not ok or PRINTER_SERIALIZER in self.failed:
+            if "Filter.__str__" not in self.failed:
+                self.failed["str(LDAPFilter)"] = "a __str__ method (or the serializer) is untranslated"
+                self.blocks.append(self.stub("Filter_str", "str(LDAPFilter)", self.failed["str(LDAPFilter)"]))
+            return
+        blk = ["mutual",
+               "/-- `str(f)` for a filter object: dispatch on the class; the arm of a class whose `__str__` prints sub-filters",
+               "    is the body of that `__str__`, the others call the definition above -/",
+               "def Filter_str : Filter → List Nat"]
+        for a in arms:
+            blk += a
+        for pat, val, why in PRINTER_EXTRA_CTORS:
+            blk.append(f"  | {pat} => {val}   -- {why}")
+        blk += ["/-- `str(f) for f in filters` -/",
+                "def Filter_str_map : List Filter → List (List Nat)",
+                "  | [] => []",
+                "  | f_ :: rest_ => Filter_str f_ :: Filter_str_map rest_",
+                "end"]
+        self.blocks.append("\n".join(blk))
+        self.count += 1
+
+    def stub(self, lname, pyname, reason):
+        reason = reason.replace("\\", "\\\\").replace('"', '\\"')
+        return (f"/-- `{pyname}` is outside the translated subset -/\n"
+                f'def {lname}_untranslated : String := "{reason}"')
+
+    def text(self) -> str:
+        return "".join(b + "\n\n" for b in self.blocks)
 
 
 def main(argv):
@@ -2558,6 +3015,10 @@ def main(argv):
         mod = Module(tree, prof)
         gen = Generator(mod)
         gen.run(prof.targets)
+        if prof.ext:                      # the printer half: __str__ of the filter classes, _serialize_filter_value
+            gen.printer = PrinterTranslator(tree, mod)
+            gen.printer.run()
+            gen.failed.update(gen.printer.failed)
         text = gen.render("src/sansldap/" + prof.file)
         for pyname, reason in gen.failed.items():
             print(f"py2lean: {pyname}: untranslated: {reason}", file=sys.stderr)
@@ -2575,7 +3036,7 @@ def main(argv):
             os.makedirs(os.path.dirname(out_path) or ".", exist_ok=True)
             with open(out_path, "w", encoding="utf-8") as fh:
                 fh.write(text)
-            print(f"py2lean: wrote {os.path.normpath(out_path)} ({len(gen.done)} functions, {len(gen.failed)} untranslated)")
+            print(f"py2lean: wrote {os.path.normpath(out_path)} ({len(gen.done) + (gen.printer.count if getattr(gen, "printer", None) else 0)} functions, {len(gen.failed)} untranslated)")
     if stale:
         return 1
     return 3 if any_failed else 0
